@@ -28,8 +28,8 @@ MANIFEST = dict(
               "compared with the logical event; cross-protocol agreement on the same logical values",
     text=("spec/Protocols.tla states the law Stored(Deliver(p, e, arrival)) keeps fields/attributes (record, resource, scope)/ids/body "
           "and time = IF e.time = none THEN arrival ELSE ToMillis(e.time), and TLC enumerates the 1 236 expressible cases of "
-          "10 protocols x 11 value kinds (string, unicode/escapes, empty, 'NaN' substring, int, negative, float, bool, >2^53 int, "
-          "nested, array; 7 metric kinds) x attribute level x trace/span ids x time unit (none, s, fractional s, ms, ns, ns string, "
+          "10 protocols x 11 value kinds (string, unicode/escapes, 'NaN' substring, int, negative, float, bool, >2^53 int, "
+          "nested, array, nested members named like reserved top-level keys; 7 metric kinds) x attribute level x trace/span ids x time unit (none, s, fractional s, ms, ns, ns string, "
           "RFC3339) x request shape (alone; or between two mates - distinct logical events with their own marker, body, ids, values, time and "
           "attribute keys - in the same scope/stream/body, in sibling scopes/streams with disjoint scope attribute keys, in sibling "
           "resources with disjoint resource attribute keys; body lengths shrink, stay or grow along the request). EVERY event of a "
@@ -75,6 +75,9 @@ def logical(case, n, seed):
         "str": "hello world %s" % eid, "unicode": "héllo \"q\" \\ 世界 /%s" % eid, "empty": "", "nansub": "BaNaNa-%s" % eid,
         "int": 42 + n + 1000 * seed, "neg": -17 - n - 1000 * seed, "float": 2.3 + n / 4.0 + seed, "bool": (n + seed) % 2 == 0,
         "bigint": 9007199254740993 + 2 * (n + 1000 * seed), "nested": {"a": {"b": "deep-%s" % eid}}, "array": [1, "two-%s" % eid],
+        "reserved": {"timestamp": "ts-%s" % eid, "_index": "ix-%s" % eid, "_id": "id-%s" % eid, "_type": "ty-%s" % eid, "time": 1000 + n,
+                     "index": "in-%s" % eid, "host": "ho-%s" % eid, "source": "so-%s" % eid,
+                     "sub": {"timestamp": {"deep": "d-%s" % eid, "timestamp": n + 7}, "_index": "six-%s" % eid}},
         "m_int": 42 + n, "m_frac": 3.7 + n + seed, "m_neg": -2.25 - n - seed, "m_big": 1e15 + n * 7 + seed, "m_small": 1.5e-9 * (n + 1 + seed),
         "m_tagnan": 1.0 + n, "m_tagunicode": 2.0 + n, "m_tagescapes": 3.0 + n,
     }[k]
@@ -343,10 +346,20 @@ def find_cols(rec, key):
     return {c: v for c, v in rec.items() if c == key or c.endswith("." + key) or c.startswith(key + ".") or ("." + key + ".") in c}
 
 
+def leaves(v, path=""):
+    if isinstance(v, dict):
+        out = []
+        for k, x in v.items():
+            out += leaves(x, (path + "." if path else "") + k)
+        return out
+    return [(path, v)]
+
+
 def same_value(kind, want, cols, key):
     """is the logical value present with its kind"""
-    if kind == "nested":
-        return any(c.endswith(key + ".a.b") and v == want["a"]["b"] for c, v in cols.items())
+    if kind in ("nested", "reserved"):
+        # every leaf of the nested value must be stored under <...>key.<path of the leaf>
+        return all(any(c.endswith(key + "." + path) and v == leaf and type(v) is type(leaf) for c, v in cols.items()) for path, leaf in leaves(want))
     if kind == "array":
         marker = want[1]
         for c, v in cols.items():
